@@ -56,16 +56,22 @@ def optMin : Option Int → Option Int → Option Int
   | a, none => a
   | some a, some b => some (min a b)
 
-/-- cheapest cost of moving one unit of some source present in sink `i` over to sink `k` -/
-def moveW (p : Problem) (x : Mat) (i k : Nat) : Option Int :=
-  (List.range p.nbSources).foldl (fun acc j =>
-    if get2 x i j > 0 then optMin acc (some (p.cost k j - p.cost i j)) else acc) none
+abbrev AMat := Array (Array Int)
 
-def bfRound (p : Problem) (x : Mat) (d : List (Option Int)) : List (Option Int) :=
-  (List.range p.nbSinks).map (fun i =>
-    (List.range p.nbSinks).foldl (fun acc k =>
-      match moveW p x i k, d.getD k none with
-      | some w, some dk => optMin acc (some (w + dk))
+def toAMat (m : Mat) : AMat := (m.map List.toArray).toArray
+
+def aget (m : AMat) (i j : Nat) : Int := (m.getD i #[]).getD j 0
+
+/-- cheapest cost of moving one unit of some source present in sink `i` over to sink `k` -/
+def moveW (nSources : Nat) (c x : AMat) (i k : Nat) : Option Int :=
+  (List.range nSources).foldl (fun acc j =>
+    if aget x i j > 0 then optMin acc (some (aget c k j - aget c i j)) else acc) none
+
+def bfRound (n : Nat) (w : Array (Array (Option Int))) (d : Array (Option Int)) : Array (Option Int) :=
+  (Array.range n).map (fun i =>
+    (List.range n).foldl (fun acc k =>
+      match (w.getD i #[]).getD k none, d.getD k none with
+      | some wik, some dk => optMin acc (some (wik + dk))
       | _, _ => acc) (d.getD i none))
 
 def iter {α : Type} (f : α → α) : Nat → α → α
@@ -74,16 +80,22 @@ def iter {α : Type} (f : α → α) : Nat → α → α
 
 /-- `(u, v)` -/
 def potentials (p : Problem) (x : Mat) : List Int × List Int :=
-  let free := (List.range p.nbSinks).map (fun i => decide (rowSum x p.nbSources i < p.capacity i))
+  let n := p.nbSinks
+  let m := p.nbSources
+  let xa := toAMat x
+  let ca := toAMat p.costs
+  let free := (Array.range n).map (fun i =>
+    decide ((List.range m).foldl (fun acc j => acc + aget xa i j) 0 < p.capacity i))
   let anyFree := free.any id
-  let d0 : List (Option Int) := free.map (fun f => if f || !anyFree then some 0 else none)
-  let d := iter (bfRound p x) p.nbSinks d0
+  let d0 : Array (Option Int) := free.map (fun f => if f || !anyFree then some 0 else none)
+  let w := (Array.range n).map (fun i => (Array.range n).map (fun k => if i == k then none else moveW m ca xa i k))
+  let d := iter (bfRound n w) n d0
   let v0 := d.map (fun o => o.getD 0)
   let shift := if anyFree then 0 else v0.foldl (fun a b => min a b) 0
   let v := v0.map (fun a => a - shift)
-  let u := (List.range p.nbSources).map (fun j =>
-    ((List.range p.nbSinks).foldl (fun acc i => optMin acc (some (p.cost i j + v.getD i 0))) none).getD 0)
-  (u, v)
+  let u := (List.range m).map (fun j =>
+    ((List.range n).foldl (fun acc i => optMin acc (some (aget ca i j + v.getD i 0))) none).getD 0)
+  (u, v.toList)
 
 /-- what the driver evaluates on every solved instance -/
 def certifies (p : Problem) (x : Mat) : Bool :=
